@@ -46,6 +46,16 @@ inline const char* cpp_err_name(int code)
 
 inline void probe_kv(const char* k) { o_sep(); o_str(k); o_str("="); }
 inline void probe_uint(const char* k, unsigned long long v) { probe_kv(k); char b[48]; std::snprintf(b, sizeof b, "%llu", v); o_str(b); }
+// fixed_port_id is printed only if the traits export it (SFINAE), so that a dropped constant is a metadata difference
+// of the probe and not a compile error of the shim
+template <typename T>
+inline auto probe_fixed_port(int) -> decltype(static_cast<void>(T::_traits_::FixedPortId))
+{
+    probe_uint("fixed_port_id", T::_traits_::FixedPortId);
+}
+template <typename T>
+inline void probe_fixed_port(long) {}
+
 template <typename T>
 inline void probe_const(const char* k, const T& x)
 {
